@@ -379,7 +379,7 @@ func RunC16(tier string) int {
 	}
 	rep.Transitions = rep.Evaluations
 	rep.Extra["parts"] = parts
-	rep.Rule = "spelling×cwd: 6 trees × 4 option sets × 28 (source spelling, cwd) pairs incl. relative, dotted, trailing slash, and by way of links with absolute/relative targets and chains; every output (decoded headers + bodies + Meta) must equal that of the clean absolute spelling. Histories: every sequence of <=2/3 calls from 8 operations (Packs incl. rule files starting with a negation, legacy Pack, dereferencing, an Unpack), each history in a FRESH worker process re-materialising trees at the same path, followed by 10 probe Packs whose outputs must equal those of a fresh process; as root and uid 65534 (where an unreadable .git/locked makes pruning observable). Schedules: see sched part."
+	rep.Rule = "spelling×cwd: 6 trees × 4 option sets × every (source spelling, cwd) pair of the list (count in parts) incl. relative, through a link whose target has '..' after a symlinked directory, dotted, trailing slash, and by way of links with absolute/relative targets and chains; every output (decoded headers + bodies + Meta) must equal that of the clean absolute spelling. Histories: every sequence of <=2/3 calls from 8 operations (Packs incl. rule files starting with a negation, legacy Pack, dereferencing, an Unpack), each history in a FRESH worker process re-materialising trees at the same path, followed by 10 probe Packs whose outputs must equal those of a fresh process; as root and uid 65534 (where an unreadable .git/locked makes pruning observable). Schedules: see sched part."
 	return rep.Finish()
 }
 
